@@ -7,7 +7,9 @@
    is taken from the trace, so the code before and after the fix both have a matching behaviour, and the property is
    judged on the returned answer:
      C06_QueryNotLinearizable  the answer is not one the store would have given at any moment while the query ran
-     C06_ClosingRunMissing     the run that was being closed is not in the answer                                 *)
+     C06_ClosingRunMissing     the run that was being closed is not in the answer
+     C06_AcknowledgedUpdateLost  a manual status update of the run, issued while Close compacts its file and
+                               acknowledged, is not what the lookup returns once the run is closed (open finding F-06h) *)
 EXTENDS HistoryConc, Json
 CONSTANT TraceFile
 Trace == ndJsonDeserialize(TraceFile)
@@ -16,25 +18,30 @@ E == Trace[l]
 tvars == <<vars, l, bad, lost, nq, qfind>>
 
 Reset == /\ disk' = [f \in Runs \X Kinds |->
-                       IF f[1] < R /\ f[2] = "comp" THEN [exists |-> TRUE, st |-> f[1]]
-                       ELSE IF f[1] = R /\ f[2] = "orig" THEN [exists |-> TRUE, st |-> R] ELSE NoFile]
+                       IF f[1] < R /\ f[2] = "comp" THEN [exists |-> TRUE, st |-> f[1], upd |-> FALSE]
+                       ELSE IF f[1] = R /\ f[2] = "orig" THEN [exists |-> TRUE, st |-> R, upd |-> FALSE] ELSE NoFile]
          /\ rpc' = "open" /\ qpc' = "idle" /\ qfiles' = <<>> /\ qacc' = <<>> /\ relists' = 0 /\ valid' = {} /\ answer' = <<>>
+         /\ upc' = "idle" /\ ufile' = <<R, "orig">> /\ ugone' = FALSE /\ readUpd' = FALSE
          /\ lost' = FALSE /\ nq' = E.n /\ qfind' = (E.query = "find")
 \* the query's steps, the branch taken from the trace
 TList == /\ qpc = "idle" /\ qpc' = "iter"
          /\ qfiles' = Listing(disk, R + 1) /\ qacc' = <<>> /\ relists' = 0 /\ valid' = {AbstractOf(disk, nq, qfind)}
-         /\ UNCHANGED <<disk, rpc, answer>>
+         /\ UNCHANGED <<disk, rpc, answer>> /\ UNCHANGED uvars
 TVisitOK(e) == qpc = "iter" /\ qfiles # <<>> /\ Head(qfiles) = <<e.run, e.kind>>
 TVisit == LET f == Head(qfiles) IN
           /\ qfiles' = Tail(qfiles) /\ UNCHANGED relists
           /\ qacc' = IF disk[f].exists /\ Takes(disk[f].st, qfind) /\ ~InAcc(disk[f].st) THEN Append(qacc, disk[f].st) ELSE qacc
-          /\ UNCHANGED <<disk, rpc, qpc, valid, answer>>
+          /\ UNCHANGED <<disk, rpc, qpc, valid, answer>> /\ UNCHANGED uvars
 TRelist == /\ qfiles' = Listing(disk, R + 1) /\ qacc' = <<>> /\ relists' = relists + 1
-           /\ UNCHANGED <<disk, rpc, qpc, valid, answer>>
-TReturn == /\ qpc' = "done" /\ answer' = qacc /\ UNCHANGED <<disk, rpc, qfiles, qacc, relists, valid>>
+           /\ UNCHANGED <<disk, rpc, qpc, valid, answer>> /\ UNCHANGED uvars
+TReturn == /\ qpc' = "done" /\ answer' = qacc /\ UNCHANGED <<disk, rpc, qfiles, qacc, relists, valid>> /\ UNCHANGED uvars
 TRec(d2, pc2) == /\ disk' = d2 /\ rpc' = pc2
                  /\ valid' = IF qpc = "iter" THEN valid \cup {AbstractOf(d2, nq, qfind)} ELSE valid
                  /\ UNCHANGED <<qpc, qfiles, qacc, relists, answer>>
+\* the whole manual update in one step (it runs while the recorder is parked at a gate)
+TUpdate == /\ upc' = "acked" /\ ufile' = FoundFile /\ UNCHANGED <<ugone, readUpd>>
+           /\ disk' = [disk EXCEPT ![FoundFile] = [exists |-> TRUE, st |-> R, upd |-> TRUE]]
+           /\ UNCHANGED <<rpc, qpc, qfiles, qacc, relists, valid, answer>>
 Enabled(e) ==
   CASE e.a = "list"    -> qpc = "idle"
     [] e.a = "visit"   -> TVisitOK(e)
@@ -45,19 +52,27 @@ Enabled(e) ==
     [] e.a = "cunlink" -> rpc = "c_unlink"
     [] e.a = "open2"   -> rpc = "closed"
     [] e.a = "write2"  -> rpc = "open2"
+    [] e.a = "update"  -> rpc # "open" /\ upc = "idle" /\ e.ok
+    [] e.a = "findafter" -> TRUE
     [] OTHER -> FALSE
 Act(e) ==
   CASE e.a = "list"    -> TList
     [] e.a = "visit"   -> TVisit
     [] e.a = "relist"  -> TRelist
     [] e.a = "return"  -> TReturn
-    [] e.a = "ccreate" -> TRec([disk EXCEPT ![<<R, "comp">>] = [exists |-> TRUE, st |-> 0]], "c_write")
-    [] e.a = "cwrite"  -> TRec([disk EXCEPT ![<<R, "comp">>].st = R], "c_unlink")
-    [] e.a = "cunlink" -> TRec([disk EXCEPT ![<<R, "orig">>] = NoFile], "closed")
-    [] e.a = "open2"   -> TRec([disk EXCEPT ![<<R + 1, "orig">>] = [exists |-> TRUE, st |-> 0]], "open2")
-    [] e.a = "write2"  -> TRec([disk EXCEPT ![<<R + 1, "orig">>].st = R + 1], "wrote2")
+    [] e.a = "ccreate" -> /\ TRec([disk EXCEPT ![<<R, "comp">>] = [exists |-> TRUE, st |-> 0, upd |-> FALSE]], "c_write")
+                          /\ readUpd' = disk[<<R, "orig">>].upd /\ UNCHANGED <<upc, ufile, ugone>>
+    [] e.a = "cwrite"  -> TRec([disk EXCEPT ![<<R, "comp">>].st = R, ![<<R, "comp">>].upd = readUpd], "c_unlink") /\ UNCHANGED uvars
+    [] e.a = "cunlink" -> TRec([disk EXCEPT ![<<R, "orig">>] = NoFile], "closed") /\ UNCHANGED uvars
+    [] e.a = "open2"   -> TRec([disk EXCEPT ![<<R + 1, "orig">>] = [exists |-> TRUE, st |-> 0, upd |-> FALSE]], "open2") /\ UNCHANGED uvars
+    [] e.a = "write2"  -> TRec([disk EXCEPT ![<<R + 1, "orig">>].st = R + 1], "wrote2") /\ UNCHANGED uvars
+    [] e.a = "update"  -> TUpdate
+    [] e.a = "findafter" -> UNCHANGED vars
 \* the returned answer against the specification's state (evaluated BEFORE the return step)
-Judge(e) == IF e.a # "return" THEN {}
+Judge(e) == IF e.a = "findafter"
+              THEN (IF upc = "acked" /\ e.answer # <<9>> THEN {"C06_AcknowledgedUpdateLost"} ELSE {})
+                   \cup (IF e.answer # (IF ~HasStatus(disk, R) THEN <<>> ELSE IF disk[FoundFile].upd THEN <<9>> ELSE <<R>>) THEN {"DRIFT_ConcAnswerDiffers"} ELSE {})
+            ELSE IF e.a # "return" THEN {}
             ELSE (IF e.answer \notin valid THEN {"C06_QueryNotLinearizable"} ELSE {})
                  \cup (IF ~\E i \in DOMAIN e.answer : e.answer[i] >= R THEN {"C06_ClosingRunMissing"} ELSE {})
                  \cup (IF e.answer # qacc THEN {"DRIFT_ConcAnswerDiffers"} ELSE {})
